@@ -28,59 +28,88 @@ def _alarm(signum, frame):
 
 
 def mask(s: str, root: str) -> str:
-    s = s.replace(root, "<ROOT>")
+    """root = the directory of the case (inside the scratch directory of the history)."""
     real = os.path.realpath(root)
-    if real != root:
-        s = s.replace(real, "<ROOT>")
-    # ids derived from text that contains the scratch path (make_id lower-cases and hyphenates it)
-    base = os.path.basename(root.rstrip(os.sep))
+    for r in (root, real):
+        s = s.replace(r, "<ROOT>")
+    # ids derived from text that contains the path (make_id lower-cases and hyphenates it)
     try:
         from docutils.nodes import make_id
-        variants = {base, base.lower(), make_id(base)}
+        for r in (root, real):
+            s = s.replace(make_id(r), "root-x")
     except Exception:  # pragma: no cover
-        variants = {base, base.lower()}
-    for v in sorted(variants, key=len, reverse=True):
-        if v:
-            s = s.replace(v, "mystverif-x")
+        pass
     s = SCRATCH.sub("mystverif-x", s)
     return ADDR.sub(" at 0x?", s)
 
 
-def run_one(case):
+def run_one(case, hist_root, index):
+    """Parse one case.  Its files live in <hist_root>/<dir_key> when the case has a "dir_key" (cases of one history that
+    share the key see the same absolute paths: needed to expose state keyed by a path), else in a directory of its own."""
     from gen.c01_run import subst, write_files
-    from lib.impl import publish, scratch_dir
+    from lib.impl import publish
     kind = case.get("kind", "parse")
-    with scratch_dir() as root:
-        try:
-            if kind == "merge":
-                return run_merge(case)
-            write_files(root, case)
-            name = case.get("name", "index.md")
-            text = case["text"].replace("__SELF__", name)
-            src = os.path.join(root, name)
-            with open(src, "w", encoding="utf8", errors="surrogatepass", newline="") as f:
-                f.write(text)
-            settings = subst(dict(case.get("settings", {})), root)
-            for k in ("myst_enable_extensions", "myst_fence_as_directive"):
-                if k in settings and isinstance(settings[k], list):
-                    settings[k] = set(settings[k])
-            # docutils' default report level: INFO messages (e.g. docutils' own, cached, directive / role / language
-            # lookup notices) are not part of the produced doctree or warning stream
-            settings.setdefault("report_level", 2)
-            snap = copy.deepcopy(settings)
-            doc, ws = publish(text, settings, source_path=src, writer=case.get("writer"))
-            out = doc if isinstance(doc, str) else doc.pformat()
-            res = {"doc": mask(out, root), "warn": mask(ws, root)}
-            if settings != snap:
-                res["settings_mutated"] = True
-            return res
-        except _Timeout:
-            raise
-        except BaseException as e:  # noqa: BLE001
-            tb = traceback.extract_tb(e.__traceback__)
-            inner = [f for f in tb if "/myst_parser/" in f.filename]
-            where = f"{inner[-1].filename.split('/myst_parser/')[-1]}:{inner[-1].name}" if inner else ""
-            return {"doc": f"EXC:{type(e).__name__}:{where}", "warn": ""}
+    root = os.path.join(hist_root, case.get("dir_key") or f"w{index}")
+    os.makedirs(root, exist_ok=True)
+    try:
+        if kind == "merge":
+            return run_merge(case)
+        write_files(root, case)
+        name = case.get("name", "index.md")
+        text = case["text"].replace("__SELF__", name)
+        src = os.path.join(root, name)
+        with open(src, "w", encoding="utf8", errors="surrogatepass", newline="") as f:
+            f.write(text)
+        settings = subst(dict(case.get("settings", {})), root)
+        for k in ("myst_enable_extensions", "myst_fence_as_directive"):
+            if k in settings and isinstance(settings[k], list):
+                settings[k] = set(settings[k])
+        # docutils' default report level: INFO messages (e.g. docutils' own, cached, directive / role / language
+        # lookup notices) are not part of the produced doctree or warning stream
+        settings.setdefault("report_level", 2)
+        snap = copy.deepcopy(settings)
+        doc, ws = publish(text, settings, source_path=src, writer=case.get("writer"))
+        out = doc if isinstance(doc, str) else doc.pformat()
+        res = {"doc": mask(out, root), "warn": mask(ws, root)}
+        if settings != snap:
+            res["settings_mutated"] = True
+        if case.get("dump_cells"):
+            res["cells"] = dump_cells()
+        return res
+    except _Timeout:
+        raise
+    except BaseException as e:  # noqa: BLE001
+        tb = traceback.extract_tb(e.__traceback__)
+        inner = [f for f in tb if "/myst_parser/" in f.filename]
+        where = f"{inner[-1].filename.split('/myst_parser/')[-1]}:{inner[-1].name}" if inner else ""
+        return {"doc": f"EXC:{type(e).__name__}:{where}", "warn": ""}
+
+
+def _fn_id(f):
+    return f"{getattr(f, '__module__', '?')}.{getattr(f, '__qualname__', repr(f))}"
+
+
+def dump_cells():
+    """Observable content of the process-level cells of Gen/GlobalWrites (keyed by the write target text of the table)
+    and of the third-party objects MyST has been seen to touch; values are comparable strings."""
+    out = {}
+    try:
+        from docutils.writers._html_base import HTMLTranslator
+        for a in ("visit_rubric", "depart_rubric", "visit_container", "depart_container"):
+            out[f"HTMLTranslator.{a}"] = _fn_id(getattr(HTMLTranslator, a))
+    except Exception as e:  # pragma: no cover
+        out["HTMLTranslator.visit_rubric"] = "ERR" + repr(e)
+    from docutils.parsers.rst import roles
+    d = repr(_fn_id(roles._roles[""])) if "" in roles._roles else "absent"
+    out["roles._roles['']"] = d
+    out["roles._roles.pop"] = d
+    from docutils.parsers.rst.directives.misc import Include
+    out["Include.option_spec"] = repr(sorted(Include.option_spec))
+    out["directive_class.option_spec['heading-offset']"] = out["Include.option_spec"]
+    from myst_parser import inventory
+    ci = inventory._create_regex.cache_info()
+    out["functools.lru_cache"] = f"size={ci.currsize}"
+    return out
 
 
 def run_merge(case):
@@ -101,12 +130,21 @@ def run_merge(case):
 
 
 def run_history(cases, timeout=120):
+    from lib.impl import scratch_dir
     old = signal.signal(signal.SIGALRM, _alarm)
     signal.alarm(timeout)
     out = []
     try:
-        for c in cases:
-            out.append(run_one(c))
+        with scratch_dir() as hist_root:
+            if any(c.get("dump_cells") for c in cases):
+                out_initial = dump_cells()
+            else:
+                out_initial = None
+            for n, c in enumerate(cases):
+                r = run_one(c, hist_root, n)
+                if n == 0 and out_initial is not None:
+                    r["cells_before"] = out_initial
+                out.append(r)
     except _Timeout:
         while len(out) < len(cases):
             out.append({"doc": "TIMEOUT", "warn": ""})
